@@ -8,7 +8,8 @@
 
 /*
   Print a string as a single token of the gensquashfs pack file syntax.
-  It is quoted if it is empty or contains a separator, a quote or a
+  It is quoted if it is empty or contains a separator, a carriage return
+  (the line reader strips one at the end of a line), a quote or a
   backslash; inside quotes, `"` and `\` are escaped.
  */
 static void print_quoted(const char *str)
@@ -16,7 +17,8 @@ static void print_quoted(const char *str)
 	const char *ptr;
 
 	for (ptr = str; *ptr != '\0'; ++ptr) {
-		if (*ptr == ' ' || *ptr == '\t' || *ptr == '"' || *ptr == '\\')
+		if (*ptr == ' ' || *ptr == '\t' || *ptr == '\r' || *ptr == '"' ||
+		    *ptr == '\\')
 			break;
 	}
 
